@@ -4,6 +4,7 @@ CONSTANTS
   Reduce = FALSE
   ChunkSizes = {1, 2}
   BootMax = 3
+  Alphabet = 4
   Mode = "geno"
   FlagSet = "small"
   AllProjDepth = 1
